@@ -2,6 +2,7 @@ use crate::run::*;
 
 pub mod canon;
 pub mod cross;
+pub mod explain;
 pub mod extract;
 pub mod group;
 pub mod history;
@@ -52,6 +53,7 @@ pub fn registry() -> Vec<Box<dyn Check>> {
         Box::new(rw::RwCheck { id: "C08R" }),
         Box::new(rw::RwCheck { id: "C11R" }),
         Box::new(rw::StopCheck),
+        Box::new(explain::ExplainCheck),
         Box::new(cross::CrossCheck { id: "C11" }),
         Box::new(cross::CrossCheck { id: "C12" }),
         Box::new(history::HistoryCheck),
